@@ -22,13 +22,6 @@ theorem padField_spec (front : Bool) (n k : Nat) : ∀ (f : Field) (s : St) (f' 
     ExtOK (n + k) s s' ∧ RectField s'.heap (n + k) f' ∧ SameShape f f'
   | .leaf nm kd o no u l, s, f', s', h, hm, hr, _ => by
     simp only [padField] at h
-    split at h
-    · rename_i hk
-      simp only [Except.ok.injEq, Prod.mk.injEq] at h
-      obtain ⟨rfl, rfl⟩ := h
-      have : k = 0 := by simpa using hk
-      subst this
-      exact ⟨⟨HeapExt.refl _, hm⟩, rect_zero hr, SameShape.refl _⟩
     · simp only [RectField] at hr
       obtain ⟨go, _⟩ := hr
       split at h
@@ -79,13 +72,6 @@ theorem padField_spec (front : Bool) (n k : Nat) : ∀ (f : Field) (s : St) (f' 
             exact ⟨key.1, leaf_rect_of_good key.2, by simp [SameShape]⟩
   | .coll nm no l fs, s, f', s', h, hm, hr, hw => by
     simp only [padField] at h
-    split at h
-    · rename_i hk
-      simp only [Except.ok.injEq, Prod.mk.injEq] at h
-      obtain ⟨rfl, rfl⟩ := h
-      have : k = 0 := by simpa using hk
-      subst this
-      exact ⟨⟨HeapExt.refl _, hm⟩, rect_zero hr, SameShape.refl _⟩
     · split at h
       · simp at h
       · rename_i fs' s1 hr1
@@ -409,14 +395,10 @@ theorem extendField_spec (us : Units) (n m : Nat) : ∀ (g f : Field) (s : St) (
           · intro hp
             by_cases hd : (False ∨ c.name ∈ names gs)
             · have hd' : c.name ∈ names gs := by simpa using hd
-              have hm0 : m = 0 := by
-                simp only [onlyInSelf, Bool.or_eq_true, Bool.and_eq_true, Bool.not_eq_true', beq_iff_eq,
-                  List.contains_eq_mem, decide_eq_true_eq, decide_eq_false_iff_not] at hp
-                rcases hp with hp | hp
-                · exact absurd hd' hp.2
-                · exact hp.1
-              have := c3 hd
-              rw [hm0] at this; simpa using this
+              exfalso
+              simp only [onlyInSelf, Bool.and_eq_true, Bool.not_eq_true',
+                List.contains_eq_mem, decide_eq_true_eq, decide_eq_false_iff_not] at hp
+              exact hp.2 hd'
             · exact (c4 hd).1
           · intro hp
             by_cases hd : (False ∨ c.name ∈ names gs)
@@ -424,9 +406,9 @@ theorem extendField_spec (us : Units) (n m : Nat) : ∀ (g f : Field) (s : St) (
             · exfalso
               have hd' : c.name ∉ names gs := by simpa using hd
               have hin := (c4 hd).2
-              simp only [onlyInSelf, Bool.or_eq_false_iff, Bool.and_eq_false_iff, Bool.not_eq_false',
+              simp only [onlyInSelf, Bool.and_eq_false_iff, Bool.not_eq_false',
                 List.contains_eq_mem, decide_eq_false_iff_not, decide_eq_true_eq] at hp
-              rcases hp.1 with h0 | h0
+              rcases hp with h0 | h0
               · exact h0 hin
               · exact hd' h0)
         have hnd : (names fs').Nodup := by rw [hnames]; exact inv1.nodup
